@@ -53,18 +53,48 @@ def all_cases(ctx):
     return uniq
 
 
+def judge_by_collision(ctx, cases):
+    """Execute, then order the events by the observed weaker-scheme result (canonical form, then normalized form) so that ALL
+    spellings colliding under canonicalize_url - also across base URLs - are adjacent: the trace spec's table is reset when the
+    canonical form changes.  (Ordering and grouping only; equality of the stronger results is judged by TLC.)"""
+    for i, c in enumerate(cases):
+        c["id"] = i + 1
+    events = core.execute_all("harness.checks.c03", cases)
+    ctx.evaluations += len(events)
+    order = sorted(range(len(events)), key=lambda i: (events[i]["c"][0], events[i]["n"][0], events[i]["x"]))
+    evs = []
+    last = None
+    for i in order:
+        e = dict(events[i])
+        e["plain"] = e["c"][0] != last          # "plain" = first event of a collision class: starts a new table
+        last = e["c"][0]
+        evs.append(e)
+    classes = sum(1 for e in evs if e["plain"])
+    ctx.extra["collision_classes_under_canonicalize"] = classes
+    ctx.extra["largest_collision_class"] = max((sum(1 for _ in g) for _k, g in __import__("itertools").groupby(evs, key=lambda e: tuple(e["c"][0]))), default=0)
+    for c, e in zip(cases, events):
+        if not c["plain"]:
+            ctx.nontrivial.add(tuple(c["x"]))
+    if not ctx.samples:
+        step = max(1, len(cases) // 8)
+        ctx.samples = [{"case": describe(cases[i]), "event": core._brief(events[i])} for i in range(0, len(cases), step)][:10]
+    verdicts = ctx.validate("Trace_C03", evs, TRACE_CFG, env=c04.ENV, group=lambda e: tuple(e["c"][0]), shard=6000)
+    return [(cases[v - 1], events[v - 1], cl, tr) for v, cl, tr, _ in verdicts]
+
+
 def run(ctx):
     ctx.model_check("C04", cfg_text="SPECIFICATION Spec\nINVARIANT Hierarchy\n" + c04.cfg(1), env=c04.ENV,
                     label="S:C03 Hierarchy on the reference models, normalize machine depth<=1")
     ctx.model_check("C04", cfg_text="SPECIFICATION Spec\nINVARIANT Hierarchy\n" + c04.cfg(ctx.pick(1, 2), ctx.pick(c04.ALLB, c04.SMALLB), fp=True), env=c04.ENV,
                     label="S:C03 Hierarchy on the reference models, fingerprint machine")
     cases = all_cases(ctx)
-    failing = c04.judge(ctx, "harness.checks.c03", cases, trace_cfg=TRACE_CFG, trace_module="Trace_C03")
+    failing = judge_by_collision(ctx, cases)
     ctx.traces_validated = len(cases)
     ctx.exhaustive = True
     ctx.rule = ("inputs: the spellings of the three spelling machines (C02, normalize, fingerprint) of %d base URLs - by construction large "
                 "collision classes under the weaker schemes; per spelling 18 calls (c x2, n x4, f x4, n.c x4, f.c x4); the trace spec tables "
-                "observed weaker-scheme results against stronger-scheme results per base; non-trivial = not the plain spelling" % c04.NBASES)
+                "observed weaker-scheme results against stronger-scheme results per collision class of canonicalize_url (events are ordered by observed canonical form, so classes "
+                "span base URLs); non-trivial = not the plain spelling" % c04.NBASES)
     ctx.assumptions = ["collision classes come from the spelling machines; cross-base collisions are not searched"]
     return core.triage(ctx, failing, describe)
 
@@ -72,5 +102,5 @@ def run(ctx):
 def replay(ctx, body):
     c = dict(body["case"])
     cases = [x for x in all_cases(ctx) if x["b"] == c["b"] and x["x"] != c["x"]] + [c]
-    failing = [f for f in c04.judge(ctx, "harness.checks.c03", cases, trace_cfg=TRACE_CFG, trace_module="Trace_C03") if f[0]["x"] == c["x"]]
+    failing = [f for f in judge_by_collision(ctx, cases) if f[0]["x"] == c["x"]]
     return core.triage(ctx, failing, describe)
